@@ -201,11 +201,12 @@ def check_reftype(ri: int, ti: int) -> bool:
 
 def check_enum(op: int, s: str) -> bool:
     """
-    pre: 0 <= op < 3 and 1 <= len(s) <= 3
+    pre: 0 <= op < 4 and 1 <= len(s) <= 3
     post: POST(_)
     """
-    # 0: append an enumerator named s, 1: swap the two enumerators, 2: rename the first enumerator
-    op = cs(op, 0, 2)
+    # 0: append an enumerator named s, 1: swap the two enumerators, 2: rename the first enumerator,
+    # 3: remove every enumerator (an enumeration that has none yet is still a data type in scope: one simple type, no values)
+    op = cs(op, 0, 3)
     with notrace():
         bp = load_bp()
         edt = bp.select_one('S_EDT')
@@ -219,6 +220,8 @@ def check_enum(op: int, s: str) -> bool:
         elif op == 1:
             xtuml.unrelate(first, second, 56, 'precedes')
             xtuml.relate(second, first, 56, 'precedes')
+        elif op == 3:
+            xtuml.delete(first); xtuml.delete(second)
     if op == 0:
         e3.Name = s
     elif op == 2:
@@ -226,7 +229,7 @@ def check_enum(op: int, s: str) -> bool:
     case(EDIT, op)
     base, enums = B_TYPES['My_Enum']
     exp_types = dict(B_TYPES)
-    exp_types['My_Enum'] = (base, {0: enums + [s], 1: enums[::-1], 2: [s] + enums[1:]}[op])
+    exp_types['My_Enum'] = (base, {0: enums + [s], 1: enums[::-1], 2: [s] + enums[1:], 3: []}[op])
     return finish(bp, B_ELEMS, exp_types, 'enumerators op %d' % op)
 
 
